@@ -136,7 +136,7 @@ fn git_color_hash_non_ascii() {
 }
 
 /// the eight names, `normal`, longer words (concrete: beyond the symbolic word bound)
-#[cfg_attr(kani, kani::proof, kani::unwind(10))]
+#[cfg_attr(kani, kani::proof, kani::unwind(14))]
 #[cfg_attr(not(kani), test)]
 fn git_color_names() {
     let words: [&str; 12] = ["black", "red", "green", "yellow", "blue", "magenta", "cyan", "white", "normal", "-1", "purple", "#aabbcc"];
